@@ -918,6 +918,10 @@ func (w *lw) step(op h.Op) {
 			merr = &h.ErrModel{Why: "read not allowed"}
 		}
 		w.agree(op, err, merr, "statesize")
+	case "querytree":
+		w.checkQueryTree(op)
+	case "condevent":
+		w.checkConditionEvent(op)
 	case "query":
 		// a single-pattern query: reveals facts like an inherited search
 		loc := w.eng.Loc(op.Loc)
@@ -1263,6 +1267,170 @@ func (w *lw) uncertainAnywhere(loc, id string, inherited bool) bool {
 }
 
 func jsonUnmarshal(js string, v interface{}) error { return json.Unmarshal([]byte(js), v) }
+
+func canonBindings(bss []map[string]interface{}, strip bool) []string {
+	var out []string
+	for _, bs := range bss {
+		if strip {
+			bs = h.StripEnv(bs)
+		}
+		out = append(out, h.CanonSet(bs))
+	}
+	sort.Strings(out)
+	return out
+}
+
+func (w *lw) anyUncertain(loc string) bool {
+	names, _ := w.model.Ancestors(loc)
+	for _, n := range names {
+		if len(w.model.UncBy[n]) > 0 {
+			return true
+		}
+	}
+	return false
+}
+
+// checkQueryTree: Location.Query on a generated tree yields the multiset of
+// bindings of the compositional semantics.
+func (w *lw) checkQueryTree(op h.Op) {
+	loc := w.eng.Loc(op.Loc)
+	q := op.Map()
+	js := h.Canon(h.StripTerms(q))
+	var qr *core.QueryResult
+	var err error
+	w.model.PurgeAll()
+	w.call("Query", func() { qr, err = loc.Query(h.NewCtx(prot(op)), js) })
+	want, merr := w.model.EvalQuery(op.Loc, q, []map[string]interface{}{{}}, prot(op))
+	w.tr("querytree %s -> %s", js, isErr(err))
+	if h.DontCare(merr) || w.anyUncertain(op.Loc) {
+		return
+	}
+	if err != nil && strings.Contains(err.Error(), "No terms given") {
+		w.soft("search-refused", "search:no-indexable-terms", "Query %s: %v", js, err)
+		return
+	}
+	if (err == nil) != (merr == nil) {
+		if err != nil {
+			w.fail("query-refused", "query:"+queryShape(q), "Query(%s, %s) returned error %q; the semantics give %v", op.Loc, js, err.Error(), canonBindings(want, false))
+		}
+		w.fail("query-accepted", "query:"+queryShape(q), "Query(%s, %s) succeeded; the semantics make it fail (%v)", op.Loc, js, merr)
+	}
+	if err != nil {
+		return
+	}
+	var got []map[string]interface{}
+	for _, bs := range qr.Bss {
+		got = append(got, map[string]interface{}(bs))
+	}
+	g, e := canonBindings(got, false), canonBindings(want, false)
+	if h.MultisetKey(g) != h.MultisetKey(e) {
+		w.fail("query-mismatch", "query:"+queryShape(q), "Query(%s, %s) = %v, the semantics give %v", op.Loc, js, g, e)
+	}
+	if len(e) > 0 {
+		w.res.Nontrivial = append(w.res.Nontrivial, "query|"+js+"|"+w.model.StateKey())
+	}
+}
+
+// queryShape names the outermost connective and whether code/not/shortCircuit occur.
+func queryShape(q map[string]interface{}) string {
+	tags := map[string]bool{}
+	var walk func(x interface{})
+	walk = func(x interface{}) {
+		switch y := x.(type) {
+		case map[string]interface{}:
+			for k, v := range y {
+				switch k {
+				case "and", "or", "not", "code", "pattern":
+					tags[k] = true
+				case "shortCircuit":
+					if b, _ := v.(bool); b {
+						tags["sc"] = true
+					}
+				}
+				if k != "pattern" && k != "term" {
+					walk(v)
+				}
+			}
+		case []interface{}:
+			for _, e := range y {
+				walk(e)
+			}
+		}
+	}
+	walk(q)
+	var ts []string
+	for t := range tags {
+		ts = append(ts, t)
+	}
+	sort.Strings(ts)
+	if len(ts) == 0 {
+		return "empty"
+	}
+	return strings.Join(ts, "+")
+}
+
+// checkConditionEvent: a rule whose condition is the query fires its action
+// once per binding the condition yields for the event's `when` bindings.
+func (w *lw) checkConditionEvent(op h.Op) {
+	loc := w.eng.Loc(op.Loc)
+	q := op.Map()
+	rule := map[string]interface{}{
+		"when":      map[string]interface{}{"pattern": map[string]interface{}{"go": "?g"}},
+		"condition": h.StripTerms(q),
+		"action":    map[string]interface{}{"code": "'hit'"},
+	}
+	l := w.model.Loc(op.Loc)
+	p := h.Prot{RK: w.model.ReadKeyOf(l), WK: w.model.WriteKeyOf(l)}
+	var err error
+	w.call("AddRule", func() { _, err = loc.AddRule(h.NewCtx(p), "condrule", core.Map(h.CloneMap(rule))) })
+	if err != nil {
+		// the condition does not parse/compile: then Query must refuse it too (checked by querytree)
+		w.tr("condevent: AddRule refused: %v", err)
+		return
+	}
+	ev := map[string]interface{}{"go": op.S}
+	var fr *core.FindRules
+	var cond *core.Condition
+	w.call("ProcessEvent", func() { fr, cond = loc.ProcessEvent(h.NewCtx(p), core.Map(h.CloneMap(ev))) })
+	in := []map[string]interface{}{{"?g": op.S, "?event": ev, "?location": op.Loc, "?ruleId": "condrule"}}
+	want, merr := w.model.EvalQuery(op.Loc, q, in, p)
+	var rerr error
+	w.call("RemRule", func() { _, rerr = loc.RemRule(h.NewCtx(p), "condrule") })
+	_ = rerr
+	w.tr("condevent %s -> cond=%v", h.Canon(h.StripTerms(q)), cond)
+	if h.DontCare(merr) || w.anyUncertain(op.Loc) {
+		return
+	}
+	if cond != nil {
+		return // a failing condition ends the walk; judged by querytree
+	}
+	hits := 0
+	var node *core.EvalRule
+	for _, c := range fr.Children {
+		if c.Rule != nil && c.Rule.Id == "condrule" {
+			node = c
+		}
+	}
+	if node == nil {
+		w.fail("condition-rule-not-dispatched", "cond", "rule with condition %s was not dispatched for %s", h.Canon(h.StripTerms(q)), h.Canon(ev))
+	}
+	failedCond := false
+	for _, erc := range node.Children {
+		if erc.Disposition != nil && erc.Disposition.Msg != "complete" {
+			failedCond = true
+		}
+		hits += len(erc.Children)
+	}
+	if failedCond != (merr != nil) {
+		if strings.Contains(fmt.Sprint(node.Children[0].Disposition), "No terms given") {
+			return
+		}
+		w.fail("condition-error-mismatch", "cond:"+queryShape(q), "condition %s: engine failed=%v, semantics refuse=%v", h.Canon(h.StripTerms(q)), failedCond, merr)
+	}
+	if merr == nil && hits != len(want) {
+		w.fail("condition-bindings-mismatch", "cond:"+queryShape(q), "condition %s on %s produced %d action executions, the semantics give %d bindings %v", h.Canon(h.StripTerms(q)), h.Canon(ev), hits, len(want), canonBindings(want, true))
+	}
+}
 
 // actOps extracts the operation list an action performs from its code: the
 // generator writes actions as Env.* calls preceded by /*ops:<json>*/.
